@@ -107,6 +107,30 @@ func compress(evs []map[string]interface{}) {
 	}
 }
 
+// runJudged runs goderive for a check whose verdict is not about termination (C07, C08). A run that exceeds the
+// load-scaled limit is repeated once with three times the limit after prepare() has restored the directory
+// (nil: the run cannot be repeated faithfully); a run that still does not finish is an infrastructure error:
+// whether goderive terminates is C09's question, and a starved machine must not turn into a C07/C08 verdict.
+func runJudged(c *core.Ctx, bin, dir string, args []string, trace string, prepare func() error) (*gd.RunResult, error) {
+	r, err := gd.Run(c, bin, dir, args, trace, 0)
+	if err != nil || !r.TimedOut {
+		return r, err
+	}
+	if prepare != nil {
+		if err := prepare(); err != nil {
+			return nil, err
+		}
+		r, err = gd.Run(c, bin, dir, args, trace, 60*time.Second)
+		if err != nil || !r.TimedOut {
+			if err == nil {
+				c.Warn("a goderive run exceeded the time limit and finished when repeated with a longer one (machine load): " + dir)
+			}
+			return r, err
+		}
+	}
+	return nil, fmt.Errorf("goderive did not finish within the load-scaled time limit in %s: this check does not judge termination (C09 does); rerun on a quieter machine", dir)
+}
+
 // timeoutRetries bounds how many timed-out runs are repeated per process (a genuine hang costs the long timeout once more)
 var timeoutRetries int32 = 6
 
